@@ -261,7 +261,10 @@ Forced       == AdminOps /\
                              Do(ForcedCall(u, sel, IF p.rcv = Staker THEN "" ELSE p.rcv))
 FeeWithdraw_ == AdminOps /\ \E u \in Principals, a \in {1, w.c.fees, w.c.fees + 1} : a > 0 /\ Do(FeeWithdrawCall(u, a))
 Breaker      == AdminOps /\ \E u \in Principals : Do(BreakerCall(u))
-Resume       == AdminOps /\ w.c.stopped /\ \E u \in Principals, k \in ResumeScales :
+\* (ResumeContract does not require the contract to be halted: the admin may also correct the totals of a running contract -
+\*  "same" totals always, other corrections with "resumerunning")
+Resume       == AdminOps /\ \E u \in Principals, k \in ResumeScales :
+                  (w.c.stopped \/ k = "same" \/ "resumerunning" \in Extras) /\
                   LET n == CASE k \in {"same", "rewards0"} -> w.c.N [] k = "down" -> w.c.N - (w.c.N \div 3) [] k = "up" -> w.c.N + 1 [] k = "zerolst" -> 5
                       \* "zerolst": a positive staked total with NO LST (ownerless stake, swept to fees by the next stake)
                       l == IF k = "zerolst" THEN 0 ELSE w.c.L
